@@ -141,6 +141,52 @@ theorem effect_rows_have_tags :
     ∀ x ∈ Programs.all, x.1 ≠ "syncx.Limit" → x.1 ≠ "syncx.TimeoutLimit" →
       ∀ r ∈ x.2, r.instr.eff.isSome = true → r.tags ≠ [] := by decide
 
+/-! ## 4b. `syncx.Pool`: the `destroy` callback panics -/
+
+/-- **A panicking `destroy` leaks nothing**: `Pool.Get` decrements `created` and unlinks the node BEFORE it calls
+`destroy`, so when the callback panics (the panic leaves `Get` through the deferred `Unlock`) the counter still is
+"idle + in use" (`k` = resources in use), the limit is unchanged, the resource dropped is one that was idle and
+expired, and nothing is handed out — whatever the state and the clock.  (Contrast `pool_create_panic_keeps_slot`:
+a panicking `create` does leave the counter one too high.) -/
+theorem pool_destroy_panic_keeps_count (p : Pool) (now : Nat) (k : Int) (h : p.created = (p.idle.length : Int) + k) :
+    ((p.getDestroyPanics now).1.created = (((p.getDestroyPanics now).1.idle.length : Nat) : Int) + k)
+    ∧ (p.getDestroyPanics now).1.limit = p.limit
+    ∧ (∀ x, (p.getDestroyPanics now).2 = some x →
+        ∃ nd rest, p.idle = nd :: rest ∧ nd.item = x ∧ expired p.maxAge now nd = true
+          ∧ (p.getDestroyPanics now).1.idle = rest)
+    ∧ ((p.getDestroyPanics now).2 = none → (p.getDestroyPanics now).1 = p) := by
+  obtain ⟨limit, maxAge, created, idle, next⟩ := p
+  cases idle with
+  | nil =>
+    refine ⟨?_, ?_, ?_, ?_⟩
+    · simpa [Pool.getDestroyPanics] using h
+    · simp [Pool.getDestroyPanics]
+    · simp [Pool.getDestroyPanics]
+    · simp [Pool.getDestroyPanics]
+  | cons nd rest =>
+    simp only [List.length_cons] at h
+    by_cases he : expired maxAge now nd = true
+    · refine ⟨?_, ?_, ?_, ?_⟩
+      · simp only [Pool.getDestroyPanics, he, if_true]
+        push_cast at h ⊢
+        omega
+      · simp [Pool.getDestroyPanics, he]
+      · intro x hx
+        simp only [Pool.getDestroyPanics, he, if_true, Option.some.injEq] at hx
+        exact ⟨nd, rest, rfl, hx, he, by simp [Pool.getDestroyPanics, he]⟩
+      · simp [Pool.getDestroyPanics, he]
+    · refine ⟨?_, ?_, ?_, ?_⟩
+      · simpa [Pool.getDestroyPanics, he] using h
+      · simp [Pool.getDestroyPanics, he]
+      · simp [Pool.getDestroyPanics, he]
+      · simp [Pool.getDestroyPanics, he]
+
+/-- non-vacuity: limit 2, maxAge 10, resources 0 (in use) and 1 (idle since t=0); at t=11 the destroy of 1 panics:
+`created` goes from 2 to 1 = 0 idle + 1 in use. -/
+example :
+    (({ limit := 2, maxAge := 10, created := 2, idle := [⟨1, 0⟩], next := 2 } : Pool).getDestroyPanics 11)
+      = ({ limit := 2, maxAge := 10, created := 1, idle := [], next := 2 }, some 1) := by decide
+
 /-! ## 5. the REST engine as a whole: one latch per route -/
 
 /-- **Server-wide bound of the REST engine** (what the concurrent engine sections check as `global=`): the engine
